@@ -8,6 +8,7 @@
      trees   attached static trees: label (with trailing slash) -> creator
      steps   attached steps: label -> creator
      globs   registered patterns in registration order: (step label, pattern, recorded matches)
+     sinks   input edges (path, consuming step), only used to name the consumer in a message
    Paths are strings (lists of code points) and all prefix tests are string prefix tests, as in
    the code (C18 proves that the SQL idioms are exact string prefix tests).
    The glob regex is an abstract matcher `gmatch : pattern -> path -> bool` (C17 supplies it).
@@ -76,10 +77,11 @@ Record state := mkState {
   loose : list str;
   trees : list (str * creator);
   steps : list (str * creator);
-  globs : list glob
+  globs : list glob;
+  sinks : list (str * str)      (* dependency edges file -> consuming step (inputs) *)
 }.
 
-Definition empty_state : state := mkState [] [] [] [] [].
+Definition empty_state : state := mkState [] [] [] [] [] [].
 
 (* ------------------------------------------------------------------------------------------ *)
 (* Messages                                                                                    *)
@@ -107,8 +109,8 @@ Inductive msg :=
   | MTreeRoot
   | MTreeFsRoot
   | MDirInput (p : str)
-  | MInputVolatile (p : str)
-  | MVolatileHasSinks (p : str)
+  | MVolInput (p producer consumer : str)     (* _volatile_input_message *)
+  | MDefineCreator (l lbl : str)
   | MBoot
   | MSelfDefine (l : str)
   (* PathError raised by File.adjust_label inside Trellis.create *)
@@ -188,8 +190,8 @@ Definition render (m : msg) : str :=
   | MTreeRoot => s2l "A static tree cannot be the project root: it would have to own plan.py and every step output. Declare the subdirectories instead."
   | MTreeFsRoot => s2l "A static tree cannot be the file system root: it would own every absolute path in the workflow. Declare a subdirectory instead."
   | MDirInput p => s2l "Directory inputs are not supported: " ++ p
-  | MInputVolatile p => s2l "Input is volatile: " ++ p
-  | MVolatileHasSinks p => s2l "An input to an existing step cannot be volatile: " ++ p
+  | MVolInput p a b => fill tmpl_volatile_input [p; a; b]
+  | MDefineCreator l lbl => s2l "Step (" ++ l ++ s2l ") cannot define its own creator (" ++ lbl ++ s2l ")."
   | MBoot => s2l "Boot step already defined."
   | MSelfDefine l => s2l "Step (" ++ l ++ s2l ") cannot define itself."
   | MBadName p => s2l "Invalid file name: " ++ p
@@ -330,6 +332,30 @@ Fixpoint fold_res {A S} (f : S -> A -> res S) (l : list A) (s : S) : res S :=
   | x :: r => bind (f s x) (fold_res f r)
   end.
 
+(* sorted(file.sinks(), key=label)[0]: the consumer with the smallest label *)
+Fixpoint min_str (l : list str) : str :=
+  match l with
+  | [] => []
+  | [x] => x
+  | x :: r => let m := min_str r in if lex_lt m x then m else x
+  end.
+
+Definition first_consumer (st : state) (p : str) : str :=
+  min_str (map snd (filter (fun e => str_eqb (fst e) p) (sinks st))).
+
+Definition add_sink (st : state) (p consumer : str) : state :=
+  mkState (claims st) (loose st) (trees st) (steps st) (globs st) ((p, consumer) :: sinks st).
+
+(* the creator chain of a step: is `lbl` one of the (indirect) creators of step l? *)
+Fixpoint is_ancestor (fuel : nat) (sts : list (str * creator)) (l lbl : str) : bool :=
+  match fuel with
+  | O => false
+  | S f => match lookup l sts with
+           | Some (CStep l') => str_eqb l' lbl || is_ancestor f sts l' lbl
+           | _ => false
+           end
+  end.
+
 (* ------------------------------------------------------------------------------------------ *)
 (* The operations                                                                              *)
 (* ------------------------------------------------------------------------------------------ *)
@@ -381,7 +407,7 @@ Definition check_decl (st : state) (w : who) (p : str) (r : role) : res bool :=
   end.
 
 Definition set_claim (st : state) (p : str) (cl : claim) : state :=
-  mkState ((p, cl) :: claims st) (remove_str p (loose st)) (trees st) (steps st) (globs st).
+  mkState ((p, cl) :: claims st) (remove_str p (loose st)) (trees st) (steps st) (globs st) (sinks st).
 
 (* Workflow._declare_file (no build targets: self.targets is empty in this layer). *)
 Definition declare_file (c : creator) (r : role) (st : state) (p : str) : res state :=
@@ -400,7 +426,11 @@ Definition declare_file (c : creator) (r : role) (st : state) (p : str) : res st
   match lookup p (claims st) with
   | Some _ => Err (MNodeExists (s2l "file:" ++ p))           (* Trellis.create guard *)
   | None =>
-      if role_eqb r RVolatile && mem_str p (loose st) then Err (MVolatileHasSinks p)
+      if role_eqb r RVolatile && mem_str p (loose st)
+      then match phrase_of c with
+           | Ok ph => Err (MVolInput p ph (phrase_step (first_consumer st p)))
+           | Err m => Err m
+           end
       else Ok (set_claim st p (mkClaim r c))
   end end).
 
@@ -472,7 +502,7 @@ Definition register_tree (c : creator) (path : str) (st : state) : res state :=
           let handed := map (fun pc => if is_prefix d (fst pc)
                                        then (fst pc, mkClaim (c_role (snd pc)) (CTree d))
                                        else pc) (claims st) in
-          let st1 := mkState handed (loose st) ((d, c) :: trees st) (steps st) (globs st) in
+          let st1 := mkState handed (loose st) ((d, c) :: trees st) (steps st) (globs st) (sinks st) in
           declare_static_files (CTree d) st1 (filter (is_prefix d) (loose st))
       end
   end)).
@@ -505,7 +535,7 @@ Definition register_glob (s pat : str) (ms : list str) (st : state) : res state 
       match find_first (is_prefix stepup_prefix) ms' with
       | Some p => Err (MStepupGlob pat p)
       | None => Ok (mkState (claims st) (loose st) (trees st) (steps st)
-                            (globs st ++ [mkGlob s pat ms']))
+                            (globs st ++ [mkGlob s pat ms']) (sinks st))
       end
   end).
 
@@ -534,17 +564,24 @@ Definition overlap_check (ph : str) (outs vols : list str) : res unit :=
   | None => Ok tt
   end.
 
-(* Workflow._resolve_supply_file, as far as claims are concerned *)
-Definition supply (st : state) (p : str) : res state :=
+(* Workflow._resolve_supply_file, as far as claims are concerned; `consumer` is the supplied step *)
+Definition supply (consumer : str) (st : state) (p : str) : res state :=
   match lookup p (claims st) with
-  | Some cl => if role_eqb (c_role cl) RVolatile then Err (MInputVolatile p) else Ok st
+  | Some cl =>
+      if role_eqb (c_role cl) RVolatile
+      then match phrase_of (c_by cl) with
+           | Ok ph => Err (MVolInput p ph (phrase_step consumer))
+           | Err m => Err m
+           end
+      else Ok (add_sink st p consumer)
   | None =>
       bind (find_owner st p) (fun o =>
       match bad_name p with Some m => Err m | None =>
       match o with
-      | Some (t, _) => Ok (set_claim st p (mkClaim RStatic (CTree t)))
-      | None => Ok (if mem_str p (loose st) then st
-                    else mkState (claims st) (p :: loose st) (trees st) (steps st) (globs st))
+      | Some (t, _) => Ok (add_sink (set_claim st p (mkClaim RStatic (CTree t))) p consumer)
+      | None => Ok (add_sink (if mem_str p (loose st) then st
+                    else mkState (claims st) (p :: loose st) (trees st) (steps st) (globs st) (sinks st))
+                    p consumer)
       end end)
   end.
 
@@ -567,6 +604,8 @@ Definition define_step (c : creator) (lbl : str) (inps outs vols : list str) (st
   let vols := sort_uniq vols in
   bind (dir_inputs inps) (fun _ =>
   if creator_eqb c (CStep lbl) then Err (MSelfDefine lbl) else
+  if (match c with CStep l => is_ancestor (List.length (steps st)) (steps st) l lbl | _ => false end)
+  then Err (MDefineCreator (creator_label c) lbl) else
   bind (glob_check (globs st) lbl (sort_uniq (outs ++ vols))) (fun _ =>
   bind (match lookup lbl (steps st) with
         | None => Ok tt
@@ -581,8 +620,8 @@ Definition define_step (c : creator) (lbl : str) (inps outs vols : list str) (st
   bind (check_all st (WPhrase ph) ROutput outs) (fun _ =>
   bind (check_all st (WPhrase ph) RVolatile vols) (fun _ =>
   bind (overlap_check ph outs vols) (fun _ =>
-  let st1 := mkState (claims st) (loose st) (trees st) ((lbl, c) :: steps st) (globs st) in
-  bind (fold_res supply inps st1) (fun st2 =>
+  let st1 := mkState (claims st) (loose st) (trees st) ((lbl, c) :: steps st) (globs st) (sinks st) in
+  bind (fold_res (supply lbl) inps st1) (fun st2 =>
   bind (fold_res (declare_file (CStep lbl) ROutput) outs st2) (fun st3 =>
   fold_res (declare_file (CStep lbl) RVolatile) vols st3))))))))).
 
@@ -593,7 +632,7 @@ Definition amend_step (s : str) (inps outs vols : list str) (st : state) : res s
   let outs := sort_uniq outs in
   let vols := sort_uniq vols in
   bind (dir_inputs inps) (fun _ =>
-  bind (fold_res supply inps st) (fun st1 =>
+  bind (fold_res (supply s) inps st) (fun st1 =>
   bind (check_all st1 (WNode (CStep s)) ROutput outs) (fun outs' =>
   bind (check_all st1 (WNode (CStep s)) RVolatile vols) (fun vols' =>
   bind (overlap_check (phrase_step s) outs' vols') (fun _ =>
